@@ -134,8 +134,8 @@ fn stress_instance<T: Elem>(st: &mut Stats, pk: PK, n: usize, dir: Dir, threads:
         Some(p) => p,
         None => return,
     };
-    let (label, fft): (String, Arc<dyn Fft<T>>) = std::thread::spawn(move || {
-        let mut planner = planner;
+    let make = move || {
+        let mut planner = AnyPlanner::<T>::new(pk).unwrap();
         match ctor_kind {
             None => (format!("n={}", n), planner.plan(n, dir)),
             Some(k) => {
@@ -143,9 +143,13 @@ fn stress_instance<T: Elem>(st: &mut Stats, pk: PK, n: usize, dir: Dir, threads:
                 (format!("ctor={}", text), f)
             }
         }
-    })
-    .join()
-    .unwrap();
+    };
+    drop(planner);
+    // `fft` is the shared instance: it is NOT called before the threads start, so that their first calls on it are
+    // concurrent (lazily initialised state would be raced). The sequential references come from `twin`, an identical
+    // instance built by a second fresh planner in another thread (C10: twin planners give bit-identical transforms).
+    let (label, fft): (String, Arc<dyn Fft<T>>) = std::thread::spawn(make).join().unwrap();
+    let (_, twin): (String, Arc<dyn Fft<T>>) = std::thread::spawn(make).join().unwrap();
     let n = fft.len();
     let case_base = format!("planner={} type={} dir={} {} threads={} rounds={}", pk.name(), T::NAME, dname(dir), label, threads, rounds);
     crate::guard::set_case(&format!("C11 {}", case_base));
@@ -160,7 +164,7 @@ fn stress_instance<T: Elem>(st: &mut Stats, pk: PK, n: usize, dir: Dir, threads:
             let k = if light { 1 + (t + i) % 2 } else { 1 + (t * 3 + i) % 3 };
             let input = inputs::gen::<T>(if i % 2 == 0 { InClass::Uniform } else { InClass::Gauss }, k * n, &mut rng);
             let mut job = Job { entry, k, input, expected: vec![] };
-            let r = run_call(&*fft, &job, Place::Tail);
+            let r = run_call(&*twin, &job, Place::Tail);
             if r.outcome.is_err() {
                 st.violation("C11", "c11", &case_base, vec![("what", J::s("isolated reference call panicked"))]);
                 return;
